@@ -41,6 +41,19 @@ def cases(rng, tier):
             w = G.tiny_opinion(rng, fmt, G.rand_opinion(rng, n, rng.choice([4, 8, 16]), rng.choice(["int", "int", "dog", "any"])), n)
             if rng.random() < 0.4:
                 w = G.tiny_opinion(rng, fmt, w, n)
+            if rng.random() < 0.3 and n >= 2:
+                # a belief mass within machine epsilon of 0 (but not 0) on a state with a small base rate
+                b, u = G.rand_simplex(rng, n, rng.choice([4, 8, 16]), "int")
+                a = G.rand_dist(rng, n, rng.choice([4, 8, 16]), positive=True)
+                i = rng.randrange(n)
+                tb = rng.choice(G.TINY[fmt][:2]); ta = rng.choice(G.TINY[fmt][2:])
+                bu = [float(v) for v in b] + [float(u)]
+                j = max((k for k in range(n + 1) if k != i), key=lambda k: bu[k])
+                bu[j] = G.round_fmt(fmt, bu[j] + bu[i] - tb); bu[i] = tb
+                aa = [float(v) for v in a]
+                k2 = max((k for k in range(n) if k != i), key=lambda k: aa[k])
+                aa[k2] = G.round_fmt(fmt, aa[k2] + aa[i] - ta); aa[i] = ta
+                w = bu + aa
             op = rng.choice(["proj", "maxu", "umax", "umax"])
             out.append(G.line(op, fmt, rng.choice(G.FAMS_1D) + ".o", [n], w))
         for _ in range(N // 4):
